@@ -250,7 +250,7 @@ func viewOf(p *proc, prefix string) (string, []string, error) {
 	for _, l := range r.Untagged {
 		if m := reListName.FindStringSubmatch(l.Text); m != nil {
 			n := unquote(m[4])
-			if strings.HasPrefix(n, prefix) && !strings.Contains(strings.ToLower(m[2]), `\noselect`) {
+			if (strings.HasPrefix(n, prefix) || n == recoveryName) && !strings.Contains(strings.ToLower(m[2]), `\noselect`) {
 				names = append(names, n)
 			}
 		}
@@ -288,7 +288,9 @@ func viewOf(p *proc, prefix string) (string, []string, error) {
 		if m := reUIDNext.FindStringSubmatch(all); m != nil {
 			next, _ = strconv.Atoi(m[1])
 		}
-		fmt.Fprintf(&sb, "%s{v%d n%d s%v:", name, uidv, next, subs[name])
+		if name != recoveryName {
+			fmt.Fprintf(&sb, "%s{v%d n%d s%v:", name, uidv, next, subs[name])
+		}
 		r, ferr := c.Cmd("UID FETCH 1:* (UID FLAGS BODY.PEEK[])")
 		if ferr != nil {
 			return "", nil, ferr
@@ -322,6 +324,20 @@ func viewOf(p *proc, prefix string) (string, []string, error) {
 			bad = append(bad, fmt.Sprintf("%s: EXISTS %d but %d messages fetched", name, exists, n))
 		}
 		sort.Slice(ms, func(i, j int) bool { return ms[i].UID < ms[j].UID })
+		if name == recoveryName {
+			// shared by all cases: only this case's messages, without UIDs; nothing at all when there is none
+			var mine []string
+			for _, m := range ms {
+				if strings.HasPrefix(m.Marker, prefix) {
+					mine = append(mine, fmt.Sprintf("%s%v", m.Marker, m.Flags))
+				}
+			}
+			if len(mine) > 0 {
+				fmt.Fprintf(&sb, "%s{%s} ", name, strings.Join(mine, " "))
+			}
+			okCmd(c, "CLOSE")
+			continue
+		}
 		for _, m := range ms {
 			fmt.Fprintf(&sb, " %d=%s%v", m.UID, m.Marker, m.Flags)
 		}
@@ -331,6 +347,8 @@ func viewOf(p *proc, prefix string) (string, []string, error) {
 	c.Cmd("LOGOUT")
 	return strings.TrimSpace(sb.String()), bad, nil
 }
+
+const recoveryName = "Recovered Messages"
 
 var reUUID = regexp.MustCompile(`^[0-9a-f]{8}-[0-9a-f]{4}-[0-9a-f]{4}-[0-9a-f]{4}-[0-9a-f]{12}$`)
 
